@@ -1,6 +1,7 @@
 """C15 Trigger formulas recalculate exactly when configured.
 
-Tier B: run-time contract on the REAL Engine.apply_user_actions for bundles of ONE user action, on
+Tier B: run-time contract on the REAL Engine.apply_user_actions for bundles of ONE user action and
+for bundles of SEVERAL record updates of one table (exemptions are per user action), on
 documents whose trigger formulas are COUNTERS (`(value or 0) + 1`): every recalculation is visible
 in fetch_table as +1.  A reference model written from the statement says, per (row, trigger
 column), whether the action MUST recalculate it, MUST NOT, or MAY (the statement leaves a gap
@@ -453,7 +454,9 @@ def main():
   rep = common.Report("C15", "exploration")
   rep.assumptions += [
     common.SHIM_ASSUMPTION,
-    "bounded: seeded random histories of single-action bundles on seed documents c15_counters "
+    "bounded: seeded random histories of single-action bundles and of 2-3-action update bundles "
+    "(explicit writes to counter columns and changes of their dependencies, in either order, on "
+    "the same or different rows) on seed documents c15_counters "
     "(table A(n, m, s, f=$n*2) with seven counter trigger columns: DEFAULT with recalcDeps [n], "
     "[n, m], [f] (a formula column), [] , [itself, s]; NEVER; MANUAL_UPDATES); actions: record updates (incl. writing the same value, explicit values for "
     "trigger columns), bulk updates, adds with/without explicit values, removals, renames of "
@@ -461,8 +464,12 @@ def main():
     "the model gives MAY (old or old+1) where the statement is silent: a dependency written with "
     "an unchanged value or possibly recomputed; MANUAL_UPDATES with all-equal values; an explicit "
     "value equal to the old one on a self-dependent column; adds with an explicit value on a "
-    "self-dependent column. Actions the model does not cover (multi-action bundles, writes to "
-    "formula columns, non-integer explicit values, configuration changes) are skipped (counted)",
+    "self-dependent column. Bundles of several UpdateRecord / BulkUpdateRecord actions on one "
+    "table are folded action by action (an explicit value exempts the column from the triggers of "
+    "ITS OWN action only; a trigger raised by a later action is owed in full; a recalculation owed "
+    "from an earlier action followed by an explicit write is MAY). Actions the model does not cover "
+    "(other multi-action bundles, writes to formula columns, non-integer explicit values, "
+    "configuration changes) are skipped (counted)",
     "a recalculation is observed as +1 of a counter formula; only Int trigger columns whose formula "
     "is exactly `(value or 0) + 1` are modelled"]
   rep.coverage["rule"] = (
